@@ -1150,7 +1150,7 @@ class FreshAhead:
 			try:
 				proj = self.ctx.tmpdir('c04-proj-')
 				write_pool(proj, case['pool'])
-				seeds = HASH_SEEDS if n < self.all else [HASH_SEEDS[n % len(HASH_SEEDS)]]
+				seeds = case.get('seeds') or (HASH_SEEDS if n < self.all else [HASH_SEEDS[n % len(HASH_SEEDS)]])
 				fresh_by_seeds(self.ctx, proj, case_queries(case), seeds)
 				self.done += 1
 			except Exception:  # noqa: BLE001 - the search asks again and reports
@@ -1585,14 +1585,17 @@ def good_module(rng: random.Random, name: str, earlier: list[dict[str, Any]]) ->
 	return m
 
 
-def search_interactive(ctx: Ctx) -> SearchResult:
-	"""A, failing B, A again (and A, A) through the real Interactive.rebuild_module: every text equals the fresh one."""
-	res = SearchResult('Interactive re-submissions with / without an intervening failing submission == fresh process')
+_INTERACTIVE: list[dict[str, Any]] | None = None
+
+
+def interactive_cases(ctx: Ctx) -> list[dict[str, Any]]:
+	"""A, failing B, A again (and A, A) through the real Interactive.rebuild_module; the failing B of every kind."""
+	global _INTERACTIVE
+	if _INTERACTIVE is not None:
+		return _INTERACTIVE
 	rng = ctx.sub_rng('interactive')
-	seen: set[str] = set()
+	cases: list[dict[str, Any]] = []
 	for n in range(ctx.scale(1, 8)):
-		if over_deadline(ctx, 'search interactive'):
-			continue
 		pool: list[dict[str, Any]] = []
 		for name in ['app.a', 'app.ab', 'app.b']:
 			pool.append(good_module(rng, name, list(pool)))
@@ -1630,9 +1633,20 @@ def search_interactive(ctx: Ctx) -> SearchResult:
 		e1, e2 = rng.sample(range(100), 2)
 		ops += [['resubmit', nothing_declared([e1])], ['resubmit', nothing_declared([e2, e1])], ['resubmit', a],
 			['resubmit', f5], ['resubmit', nothing_declared([e2])], ['resubmit', f6], ['resubmit', {**a2, 'exprs': [e1]}], ['resubmit', a2]]
-		case = {'id': f'interactive#{n}', 'pool': pool, 'ops': ops}
+		cases.append({'id': f'interactive#{n}', 'pool': pool, 'ops': ops, 'seeds': [HASH_SEEDS[n % len(HASH_SEEDS)]]})
+	_INTERACTIVE = cases
+	return cases
+
+
+def search_interactive(ctx: Ctx) -> SearchResult:
+	"""Every text of the Interactive sessions equals the fresh one."""
+	res = SearchResult('Interactive re-submissions with / without an intervening failing submission == fresh process')
+	seen: set[str] = set()
+	for case in interactive_cases(ctx):
+		if over_deadline(ctx, 'search interactive'):
+			continue
 		run = session_run(ctx, case)
-		compare_with_fresh(ctx, res, case, run, [HASH_SEEDS[n % len(HASH_SEEDS)]], seen)
+		compare_with_fresh(ctx, res, case, run, case['seeds'], seen)
 	res.distinct = len(seen)
 	return res
 
@@ -1823,14 +1837,14 @@ def run_checked(ctx: Ctx, before: str | None) -> int:
 		faulty = gen_cases(ctx, 'session-faulty', ctx.scale(6, 40), ctx.scale(12, 40), 1.0)
 		n_faulty = ctx.scale(6, 40)
 	fresh_cases = [*corpus, *valid[:ctx.scale(2, 20)], *faulty[:ctx.scale(2, 12)]]
-	ahead = FreshAhead(ctx, fresh_cases, ctx.scale(1, len(corpus) + 4))
+	ahead = FreshAhead(ctx, [*fresh_cases, *interactive_cases(ctx)], ctx.scale(1, len(corpus) + 4))
 	with ctx.timed('correspondence'):
 		# pools with an import cycle are part of the tie again: the model follows Module.identity() (mid-load fallback) since round 3
 		streams = [stream_session(ctx, 'session', [*corpus, *valid]), stream_session(ctx, 'session-faulty', faulty[:n_faulty])]
 	with ctx.timed('search'):
 		with ctx.timed('search:fresh-ahead-wait'):
 			ahead.join()
-		ctx.notes.append(f'fresh-process answers asked ahead of the search for {ahead.done} of {len(fresh_cases)} sessions')
+		ctx.notes.append(f'fresh-process answers asked ahead of the search for {ahead.done} of {len(ahead.cases)} sessions')
 		def timed(name: str, f: Any, *a: Any) -> SearchResult:
 			with ctx.timed(f'search:{name}'):
 				return f(*a)
